@@ -526,7 +526,7 @@ def define_predicate(eng, st, f):
     st.fact(z3.ForAll([m], acc.e == b))
 
 
-def callee_on_record(qual, cls_name, base_contract):
+def callee_on_record(qual, cls_name, base_contract, flag=None):
     """A method taking a received message of class `cls_name`: called with an opaque message of another class it fails with
     AttributeError on its first field access (what the real code does); otherwise its contract applies to the message's fields."""
     from pyvc.contracts import apply_contract
@@ -543,7 +543,10 @@ def callee_on_record(qual, cls_name, base_contract):
         for s, tv in eng.fork_bool(typeof_f(arg.e) == cls_code(cls), st, f"is:{cls_name}"):
             if tv:
                 rec = eng.as_record(eng, s, arg, cls)
-                out.extend(apply_contract(eng, base_contract(), fv, [args[0], rec] + list(args[2:]), kwargs, s))
+                for s2, r2 in apply_contract(eng, base_contract(), fv, [args[0], rec] + list(args[2:]), kwargs, s):
+                    if flag and not isinstance(r2, Raised):
+                        s2.heap[s2.ghost_oid].f[flag] = VBool(True)     # ghost: this check accepted a response of the right class
+                    out.append((s2, r2))
             else:
                 out.append((s, eng.raise_py(s, AttributeError, f"not a {cls_name}")))
         return out
@@ -700,16 +703,21 @@ def hello_login_contract(login):
     exp = f"((proto_id(HelloRequest), {HELLO}), (proto_id(ConnectRequest), {CONNECT}))" if login else f"((proto_id(HelloRequest), {HELLO}),)"
     return mk(
         "_connect_hello_login", params={"login": "bool"}, label="login" if login else "nologin", dispatches=True, phase_owner=True, has_awaits=True,
-        modifies=all_mods() + ["ghost.hello_passed"],
-        requires=[("this-variant", "login" if login else "not login")],
-        post_hints="ghost.hello_passed = True",
+        modifies=all_mods() + ["ghost.hello_passed", "ghost.hello_checked", "ghost.login_checked"],
+        requires=[("this-variant", "login" if login else "not login"),
+                  # (C12) the device's ping / time / disconnect requests must be serviced from the first exchange on
+                  Clause_("device-requests-are-serviced-during-hello-and-login",
+                          "handler_registered(self, DisconnectRequest, self._handle_disconnect_request_internal) and "
+                          "handler_registered(self, PingRequest, self._handle_ping_request_internal) and "
+                          "handler_registered(self, GetTimeRequest, self._handle_get_time_request_internal)", "property", ["C12"])],
+        pre_hints="ghost.hello_checked = False\nghost.login_checked = False", post_hints="ghost.hello_passed = True",
         ensures=[
             ("hello-passed", "ghost.hello_passed"),
             OWN("C06", "hello-and-login-go-out-in-one-write", f"len(writes) >= 1 and writes[0] == {exp}"),
-            OWN("C06", "succeeds-only-after-a-compatible-correctly-named-hello",
-              "exact_type(resp, HelloResponse) and resp.api_version_major <= 2 and "
-              "(self._params.expected_name is None or resp.name == '' or resp.name == self._params.expected_name)"),
-        ] + ([OWN("C06", "succeeds-only-if-the-password-was-accepted", "exact_type(login_response, ConnectResponse) and not login_response.invalid_password")] if login else []),
+            # ghost.hello_checked / login_checked are set where _process_hello_resp / _process_login_response return normally for a
+            # HelloResponse / ConnectResponse: by their contracts the version, name and password checks then passed
+            OWN("C06", "succeeds-only-after-a-compatible-correctly-named-hello", "ghost.hello_checked"),
+        ] + ([OWN("C06", "succeeds-only-if-the-password-was-accepted", "ghost.login_checked")] if login else []),
         raises={"Exception": {"kind": "auxiliary"}, **CANCEL},
         tags=["C06"],
     )
@@ -857,6 +865,8 @@ def step_preorder_target():
         st.env.f["self"] = selfref
         for r in cm.REGIONS:
             region(eng, st, r)
+        for n_, txt, _t in cm.INV:         # Step_conn is used between states that satisfy Inv_conn
+            st.assume(_ev(eng, st, _pe(txt), {"self": selfref}))
         a = st.clone()
         st.labels = {"A": a, "seg": a}
         for n_, txt, _t in cm.STEP:      # reflexive
@@ -900,6 +910,11 @@ def targets_for(eng, names, tags):
             continue
         if n == "_set_connection_state":
             c = set_state_contract()
+            c.tags = list(tags)
+            out.append(contract_target(c))
+            continue
+        if n in ("_process_hello_resp", "_process_login_response"):
+            c = hello_resp_contract() if n == "_process_hello_resp" else login_resp_contract()
             c.tags = list(tags)
             out.append(contract_target(c))
             continue
@@ -958,8 +973,8 @@ def ALL():
           pong_not_received_contract(), hello_resp_contract(), login_resp_contract(), make_connect_request_contract(), wrap_contract(),
           handle_timeout_contract(), handle_complex_message_contract(), set_state_callee(), resolve_host_contract(), socket_connect_assumed(),
           init_frame_helper_contract(), hello_login_dispatch(), complex_dispatch(),
-          callee_on_record("_process_hello_resp", "HelloResponse", hello_resp_contract),
-          callee_on_record("_process_login_response", "ConnectResponse", login_resp_contract), phase_contract("start"), phase_contract("finish"), single_response_contract(), disconnect_contract()]
+          callee_on_record("_process_hello_resp", "HelloResponse", hello_resp_contract, "hello_checked"),
+          callee_on_record("_process_login_response", "ConnectResponse", login_resp_contract, "login_checked"), phase_contract("start"), phase_contract("finish"), single_response_contract(), disconnect_contract()]
     cs += [arity_dispatch("_add_message_callback_without_remove", lambda n: add_callback_contract(n)),
            arity_dispatch("add_message_callback", lambda n: add_callback_contract(n, "add_message_callback")),
            arity_dispatch("_remove_message_callback", lambda n: remove_callback_contract(n))]
